@@ -25,6 +25,7 @@ func main() {
 	verbose := flag.Bool("v", false, "print every obligation")
 	allFuncs := flag.Bool("all", false, "also verify inlinable unexported functions as roots")
 	noReplay := flag.Bool("noreplay", false, "do not replay counterexamples on the real code")
+	cost := flag.Bool("cost", false, "also produce the cost/single-visit obligations when -funcs is given")
 	frame := flag.Bool("frame", false, "run the frame analysis (C14) instead of the contract verification")
 	flag.Parse()
 
@@ -56,6 +57,10 @@ func main() {
 	fnOf := map[string]*ssa.Function{}
 	if *frame {
 		results = append(results, e.frameCheck())
+	}
+	if !*frame && !*list && (re == nil || *cost) {
+		cr := e.costCheck()
+		results = append(results, cr)
 	}
 	for _, f := range e.allFuncs {
 		if *frame {
